@@ -102,10 +102,12 @@ Example C51_nonvacuous :
   let vs := [VList [VInt 70000; VList [VBytes [104; 105]%N; VBytes []]; VInt (-5)];
              VList [VBool true; VBool false]; VBytes [1; 2; 3]%N] in
   forallb ty_rt ts = true /\ forall2b wf_value ts vs = true /\
-  (exists b, pack_args ts vs = Ok b /\ enc_args ts vs = Some b /\ length b = 448%nat /\
-             unpack_args ts b = Ok vs) /\
+  match pack_args ts vs with
+  | Ok b => enc_args ts vs = Some b /\ length b = 480%nat /\ unpack_args ts b = Ok vs
+  | _ => False
+  end /\
   unpack_args [TBool] (pack_num 2) = Err EBool /\
   unpack_args [TArray (TUInt 256)] (pack_num 32 ++ pack_num (2 ^ 255)) = Err ELen64.
 Proof.
-  vm_compute. repeat split; try reflexivity. eexists. repeat split; reflexivity.
+  vm_compute. repeat split; reflexivity.
 Qed.
